@@ -44,6 +44,9 @@ def run(ctx):
     rep.rule('R12.12', 'rowgetter returns selectors that raise IndexError on a short row (subscript / itemgetter, never a slice)')
     ctx.attempt(r1211, ctx, rep)
     ctx.attempt(r1212, ctx, rep)
+    rep.rule('R12.20', 'rowgetter returns tuple(row[i] for i in indices) or raises IndexError, for every index tuple of length 0..4 over positions 0..3 and every row length 0..5 (C08 R8.9 imported: the padding branches of cut / cutout / the joins rely on the IndexError)')
+    from .projection import check_rowgetter
+    ctx.attempt(check_rowgetter, ctx, rep, 'R12.20')
     rep.rule('R12.14', 'rename is simultaneous: the output header is computed from the input names, never read back while it is being built')
     ctx.attempt(r1214, ctx, rep)
     from ..typestate import check_sentinels as _sentinels
